@@ -78,6 +78,69 @@ let run_pppoe (rep : vr) (flav : string) (toks : string list) : string =
         String.concat "," os ^ "|" ^ String.concat "," (List.map show_sess st'.sl) ^ "|" ^ string_of_int (int_of_nat st'.free)) evs in
     String.concat " ; " (("fsm=" ^ flav) :: steps) ^ " ; MON:" ^ !mon
   | [] -> "badcase"
+(* ---------------- IPoE ----------------
+   ipoe <pool4> <pool6> <ev>...  events: D:i R:i L:i:ok|bad Y:i:offer|ack|nak S:i Q:i N:i X:i
+                                         a:i:cur|old|unk:acc|rej|err  v:ok|fail
+   per step: sorted outputs "<slot>.<gen><token>" | per slot flags | free4/free6 ; then MON:ok|VIOLATION *)
+let ievent_of (tok : string) : ievent option =
+  let n s = nat_of_int (int_of_string s) in
+  match String.split_on_char ':' tok with
+  | ["D"; i] -> Some (IeDiscover (n i)) | ["R"; i] -> Some (IeRequest (n i))
+  | ["L"; i; "ok"] -> Some (IeRelease (n i, true)) | ["L"; i; "bad"] -> Some (IeRelease (n i, false))
+  | ["Y"; i; _] -> Some (IeServerMsg (n i))
+  | ["S"; i] -> Some (IeSolicit (n i)) | ["Q"; i] | ["N"; i] -> Some (IeRequest6 (n i)) | ["X"; i] -> Some (IeRelease6 (n i))
+  | ["a"; i; r; k] ->
+    let r = (match r with "cur" -> Some RCur | "old" -> Some ROld | "unk" -> Some RUnk | _ -> None) in
+    let k = (match k with "acc" -> Some true | "rej" | "err" -> Some false | _ -> None) in
+    (match r, k with Some r, Some k -> Some (IeAAA (n i, r, k)) | _ -> None)
+  | ["v"; "ok"] -> Some (IeCreated true) | ["v"; "fail"] -> Some (IeCreated false)
+  | _ -> None
+let show_iout = function
+  | IQ -> "Q" | IOffer -> "OFFER" | IAck -> "ACK" | IAdv -> "ADV" | IReply -> "REPLY" | IRelReply -> "RREPLY"
+  | ISbAdd -> "sbadd" | ISbDel -> "sbdel" | ISb4 true -> "sb4+" | ISb4 false -> "sb4-" | ISb6 true -> "sb6+" | ISb6 false -> "sb6-"
+  | ILifeA -> "lifeA" | ILifeR -> "lifeR" | IProg -> "prog" | IExh6 -> "EXH6"
+let b01 b = if b then "1" else "0"
+let show_islot (sl : islot) : string =
+  let s = sl.scur in
+  if int_of_nat s.igen = 0 then "-" else
+  "e" ^ b01 s.iex ^ "a" ^ b01 s.iappr ^ "f" ^ b01 s.iinfl ^ "c" ^ b01 s.icreated ^ "x" ^ b01 s.iclosing ^ "b" ^ b01 (s.ib4 <> None) ^ b01 s.ib6
+let run_ipoe (rep : bool) (toks : string list) : string =
+  match toks with
+  | p4s :: p6s :: evs ->
+    let st = ref (iinit (nat_of_int (int_of_string p4s)) (nat_of_int (int_of_string p6s))) in
+    let mon = ref imon0 and viol = ref false in
+    let steps = List.map (fun tok ->
+      match ievent_of tok with
+      | None -> "badev:" ^ tok
+      | Some e ->
+        let cur = (match e with
+          | IeAAA (i, RCur, _) -> (match List.nth_opt !st.isl (int_of_nat i) with Some sl -> (i, sl.scur.igen) | None -> (i, O))
+          | _ -> (O, O)) in
+        let existed = (match e with
+          | IeAAA (i, RCur, _) -> (match List.nth_opt !st.isl (int_of_nat i) with Some sl -> sl.scur.iex | None -> false)
+          | _ -> false) in
+        let free_before = (List.length !st.p4.pfree, List.length !st.p6.pfree) in
+        let (st', outs) = istep rep !st e in
+        st := st';
+        (match imon_outs outs (imon_in e cur !mon) with
+         | Some m -> mon := m
+         | None -> viol := true; mon := imon_in e cur !mon);
+        (* an address may leave a pool only when some accepted attempt exists *)
+        if (List.length st'.p4.pfree < fst free_before || List.length st'.p6.pfree < snd free_before) && !mon.macc = [] then viol := true;
+        (* reject-clean: after a reject/error that was applied, the attempt holds nothing *)
+        (match e with
+         | IeAAA (i, RCur, false) when existed ->
+           (match List.nth_opt st'.isl (int_of_nat i) with
+            | Some sl when not sl.scur.iex && not (holds_nothing_i st' cur sl.scur) -> viol := true
+            | _ -> ())
+         | _ -> ());
+        let os = List.sort compare (List.map (fun ((i, g), o) ->
+          string_of_int (int_of_nat i) ^ "." ^ string_of_int (int_of_nat g) ^ show_iout o) outs) in
+        String.concat "," os ^ "|" ^ String.concat "," (List.map show_islot st'.isl) ^ "|" ^
+        string_of_int (List.length st'.p4.pfree) ^ "/" ^ string_of_int (List.length st'.p6.pfree)) evs in
+    String.concat " ; " steps ^ " ; MON:" ^ (if !viol then "VIOLATION" else "ok")
+  | _ -> "badcase"
+
 (* the FSM table flavour (pkg/ppp/fsm.go as it is, or with the RFC 1661 cells repaired) is not constrained by
    this property: it is read from the implementation's line and echoed *)
 let flavour_of (impl : string) : string =
@@ -96,4 +159,5 @@ let () =
       let flav = flavour_of il in
       if flav <> "cur" && flav <> "rfc" then print_endline ("badflavour:" ^ flav) else
       print_endline (try run_pppoe { vrep = rep; vrfc = (flav = "rfc") } flav rest with e -> "modelerr:" ^ Printexc.to_string e)
+    | "ipoe" :: rest -> print_endline (try run_ipoe rep rest with e -> "modelerr:" ^ Printexc.to_string e)
     | _ -> print_endline "badline") lines
